@@ -72,4 +72,10 @@ CHECKS["C15"] = {
     "text": "C15: a fresh message is never delivered while an older waiting message (or one returned earlier) is still waiting; waiting messages are eventually delivered.",
     "note": "equal priority; RabbitMQ server ordering is part of the stub; delayed-category order is outside the claim",
 }
+CHECKS["C07"] = {
+    "engine": "symx+strx+fakes",
+    "technique": "symbolic execution (z3) of every encode()/decode() pair with all leaves symbolic through a sentinel-JSON stub; cvc5 string/regex reasoning over the AST-interpreted Redis/RabbitMQ key builders and parsers with names drawn from the validators' own regexes (unbounded length); an IEEE-754 error-model lemma in linear arithmetic for the float seconds round trip; end-to-end Job.enqueue -> consume on the three brokers with symbolic settings",
+    "text": "C07: decode(encode(x)) == x leaf by leaf at microsecond precision; key encodings parse back, are injective and the topic prefix filter is exact for all valid names; the consumer receives the key, payload and parameters that enqueue returned.",
+    "note": "argument VALUES are 8 concrete representatives (JSON text is a stub), so 'all argument values' is not claimed; float round trip rests on lemma L-FP (error model, not bit-precise); isoformat round trip trusted; Redis/AMQP servers are fakes; cron, tz-aware datetimes, Config overrides outside the claim",
+}
 NOT_APPLICABLE = {}
